@@ -722,7 +722,8 @@ func c09File(c0 *Ctx) {
 		}
 		regrouped := f.src != f.fmtd
 		r.hist(fmt.Sprintf("file:wf=%v,includes=%v,call=%v,regrouped=%v", f.wf, len(f.incs) > 0, f.call != nil, regrouped))
-		r.hist(fmt.Sprintf("file:decls=%d,stages=%d,pipelines=%d", len(f.decls), nst, npl))
+		r.hist(fmt.Sprintf("file:decls=%d", len(f.decls)))
+		r.hist(fmt.Sprintf("file:stages=%d,pipelines=%d", nst, npl))
 		r.count("file:"+strings.Join(f.items, "\t"), len(f.items) > 1)
 		if i%199 == 0 {
 			r.sample(map[string]string{"file_source_order": f.src, "formatted": f.fmtd})
